@@ -65,6 +65,9 @@ def gen_scenario(rng, sid):
     jvals = rng.choice([["a", "b"], ["u"], ["a", "b", "c"]])
     n0 = rng.choice([1, 3, 6, 10])
     old_rgs = min(n0, rng.choice([1, 2, 3]))
+    if rng.random() < 0.25:                 # part numbers with two digits (10, 11, ...): numeric vs textual ordering
+        n0 = rng.choice([11, 12, 14, 23])
+        old_rgs = n0 - rng.choice([0, 0, 1])
     new_parts = rng.choice([1, 2, 3, 4])
     n1 = new_parts * rng.choice([1, 2, 3])
     sc = {"id": sid, "partition_on": pcols, "columns": cols,
@@ -328,7 +331,7 @@ def run(ctx):
     C.pqref()
     rng = ctx.rng
     nsc = 24 if ctx.quick() else 240
-    ctx.rule = ("scenario = hive dataset (0..2 partition columns, 1..3 row groups, 0..2 earlier appends, codec/stats varied) + an append of 1..4 new "
+    ctx.rule = ("scenario = hive dataset (0..2 partition columns, 1..3 or 10..23 row groups, 0..2 earlier appends, codec/stats varied) + an append of 1..4 new "
                 "row groups; for EVERY k = 1..N (N = number of mkdir/open-for-write/write/close calls the fault-free append issues) and every variant "
                 "(fail before the call has an effect / after it / short write) the real append runs with the k-th call failing, then a fresh open; "
                 "a case is (scenario, k, variant); the fault-free run of a scenario is the only trivial one")
